@@ -157,8 +157,7 @@ theorem fromStream_of_decodes (inp : Bytes) (t : Tree) (rest : Bytes)
 /-- `parse_triples(f, true)`: on every byte string from which the classic decoder reads a tree `t`, it
 reads the same bytes, returns one triple per node of `t` and the tree hashes of all sub-trees of `t`
 in pre-order; `tree_hashes[0]` is the tree hash of `t`.  No `panic!`/index failure is reached.
-(Not covered: the converse — that `parse_triples` fails whenever the decoder fails, which is C16 — and
-the offsets stored in the triples.) -/
+(The offsets stored in the triples are not specified here; the converse is `triples_only_if_decodes`.) -/
 theorem triples_eq_treeHash (inp : Bytes) (t : Tree) (rest : Bytes)
     (h : Serde.Classic.nodeFromStream inp [.sexp] [] = .ok (t, rest)) :
     (∃ ts, ts.length = nodes t ∧ parseTriples inp true = .ok (ts, some (hashList t), rest)) ∧
@@ -167,6 +166,16 @@ theorem triples_eq_treeHash (inp : Bytes) (t : Tree) (rest : Bytes)
   refine ⟨⟨ts, hl, e⟩, ?_⟩
   obtain ⟨tl, htl⟩ := hashList_head t
   simp [parseTriplesRootHash, e, htl]
+
+/-- conversely, for every byte string on which `parse_triples(f, true)` succeeds, the classic decoder
+succeeds with the same remainder, and the returned hashes are the tree hashes of the decoded tree's
+sub-trees (so `parse_triples` and `node_from_stream` accept exactly the same inputs; their error
+kinds differ: a truncated atom body is `InternalError` here, `SerializationError` there). -/
+theorem triples_only_if_decodes (inp : Bytes) (ts : List Triple) (hs : Option (List Bytes)) (rest : Bytes)
+    (h : parseTriples inp true = .ok (ts, hs, rest)) :
+    ∃ t, Serde.Classic.nodeFromStream inp [.sexp] [] = .ok (t, rest) ∧ hs = some (hashList t) ∧
+      ts.length = nodes t :=
+  decodes_of_parseTriples inp ts hs rest h
 
 /-- every entry of the hash list is the tree hash of the corresponding sub-tree (pre-order) -/
 theorem hashList_spec :
